@@ -254,11 +254,85 @@ func c12Specs(tier string) []*clustermc.Spec {
 			alpha = append(alpha, clustermc.Ev{K: "put", A: i}, clustermc.Ev{K: "del", A: i})
 		}
 		alpha = append(alpha, clustermc.Ev{K: "compact"})
+		plain := len(alpha)
+		// a client iteration (COUNT=1) during which plain operation #A lands after the B-th key was
+		// yielded; the state it leaves is that of the plain operation
+		for a := 0; a < plain; a++ {
+			for pos := 0; pos <= 2; pos++ {
+				alpha = append(alpha, clustermc.Ev{K: "iterate-with", A: a, B: pos})
+			}
+		}
+		var apply func(si interface{}, e clustermc.Ev) []clustermc.Fail
+		apply = func(si interface{}, e clustermc.Ev) []clustermc.Fail {
+			s := si.(*c12Sys)
+			if e.K == "plain" {
+				return c12Plain(s, alpha[e.A])
+			}
+			if e.K != "iterate-with" {
+				return nil
+			}
+			op := alpha[e.A]
+			before := map[string]bool{}
+			for k := range s.Present {
+				before[k] = true
+			}
+			cc, err := s.Cl.ClusterClient(s.Cl.Live()[len(s.Cl.Live())-1])
+			if err != nil {
+				return []clustermc.Fail{{Key: "client", What: err.Error()}}
+			}
+			defer cc.Close(context.Background())
+			dm, _ := cc.NewDMap("d")
+			it, err := dm.Scan(context.Background(), olric.Count(1))
+			if err != nil {
+				return []clustermc.Fail{{Key: "iterator/open", What: err.Error()}}
+			}
+			defer it.Close()
+			got := map[string]int{}
+			n := 0
+			var fs []clustermc.Fail
+			applied := false
+			land := func() {
+				if !applied {
+					applied = true
+					fs = append(fs, apply(si, clustermc.Ev{K: "plain", A: e.A})...)
+				}
+			}
+			if e.B == 0 {
+				land()
+			}
+			for it.Next() {
+				got[it.Key()]++
+				n++
+				if n == e.B {
+					land()
+				}
+				if n > 64 {
+					fs = append(fs, clustermc.Fail{Key: "iterator-under-churn/not-terminating", What: fmt.Sprintf("the iterator yielded %d keys and is still going (operation %s after key %d)", n, op.K, e.B)})
+					break
+				}
+			}
+			land()
+			for k := range before {
+				if s.Present[k] && got[k] != 1 {
+					fs = append(fs, clustermc.Fail{Key: fmt.Sprintf("iterator-under-churn/stable-key-yielded-%d-times/op=%s", got[k], op.K),
+						What: fmt.Sprintf("client iterator COUNT=1 with %s(key#%d) landing after %d yielded keys: key %q was present before and after the iteration and was yielded %d times (yielded: %v)", op.K, op.A, e.B, k, got[k], keysOf(got))})
+				}
+			}
+			for k := range got {
+				if !before[k] && !s.Present[k] {
+					fs = append(fs, clustermc.Fail{Key: "iterator-under-churn/ghost", What: fmt.Sprintf("the iterator yields %q which was never present", k)})
+				}
+			}
+			return fs
+		}
 		out = append(out, &clustermc.Spec{
 			Name: name, Depth: depth, New: newSys,
 			Events: func(s interface{}) []clustermc.Ev { return alpha },
 			Apply: func(si interface{}, e clustermc.Ev) []clustermc.Fail {
 				s := si.(*c12Sys)
+				if e.K == "iterate-with" {
+					return apply(si, e)
+				}
 				switch e.K {
 				case "put":
 					if r := s.KV.Put(s.Keys[e.A], []byte("0123456789-0123456789"), simcluster.PutOpt{}); r.Err != "" {
@@ -308,12 +382,38 @@ func c12Specs(tier string) []*clustermc.Spec {
 				if e.K == "compact" {
 					return "compact"
 				}
+				if e.K == "iterate-with" {
+					o := alpha[e.A]
+					return fmt.Sprintf("iterate(COUNT=1) with %s(key#%d) landing after %d keys", o.K, o.A, e.B)
+				}
 				return fmt.Sprintf("%s(key#%d)", e.K, e.A)
 			},
 			NonTrivial: func(si interface{}) bool { return len(si.(*c12Sys).Present) >= 2 },
 		})
 	}
 	return out
+}
+
+func c12Plain(s *c12Sys, e clustermc.Ev) []clustermc.Fail {
+	switch e.K {
+	case "put":
+		if r := s.KV.Put(s.Keys[e.A], []byte("0123456789-0123456789"), simcluster.PutOpt{}); r.Err != "" {
+			return []clustermc.Fail{{Key: "put-failed", What: r.Err}}
+		}
+		s.Present[s.Keys[e.A]] = true
+	case "del":
+		if r := s.KV.Del(s.Keys[e.A]); r.Err != "" {
+			return []clustermc.Fail{{Key: "del-failed", What: r.Err}}
+		}
+		delete(s.Present, s.Keys[e.A])
+	case "compact":
+		for _, m := range s.Cl.Live() {
+			for p := uint64(0); p < s.Cl.O.Partitions; p++ {
+				m.DB.VerifDMap().VerifCompactPartition(p)
+			}
+		}
+	}
+	return nil
 }
 
 // ---- a partition with two primary owners --------------------------------------------------------
